@@ -33,6 +33,14 @@ REQUIRED_COUNTERS = [
     "fresh_twin.verdicts_compared", "history.other_classes_used_first", "trees.root_is_subclass",
 ]
 
+ANCHORS = [
+    "statham.schema.validation.object:Required.from_element",
+    "statham.schema.validation:get_validators",
+    "statham.schema.elements.properties:Properties.__init__",
+    "statham.schema.property:_Property.bind",
+    "statham.schema.elements.base:Element.validators",
+]
+
 
 def plan(tier):
     if tier == "quick":
